@@ -50,7 +50,12 @@ def gen_case_archive(seed, i):
         members.append({"match": mp, "ident": ident, "scan": G.scan_part(r, len(recs)),
                         "unmatched": r.random() < 0.3})
     method = r.choice(["collect_paths", "fast_forward_paths", "next_paths", "collect_by_line", "fast_forward_by_line", "next_by_line"])
-    return {"recs": recs, "members": members, "method": method}
+    case = {"recs": recs, "members": members, "method": method}
+    if i % 5 == 4:
+        # the file and the CsvPaths in another dialect
+        case["delim"] = r.choice([";", "|", "\t"])
+        case["quote"] = r.choice(["'", '"'])
+    return case
 
 
 def member_text(m):
@@ -63,12 +68,14 @@ def member_text(m):
     return f"{c}$[{m['scan']}][{m['match']}]"
 
 
-def read_csv_bytes(b):
-    return [row for row in csv.reader(io.StringIO(b.decode("utf-8"), newline=""))]
+def read_csv_bytes(b, dialect=(",", '"')):
+    return [row for row in csv.reader(io.StringIO(b.decode("utf-8"), newline=""), delimiter=dialect[0], quotechar=dialect[1])]
 
 
-def check_member_dir(res, mdir, mo, collects, what=""):
-    """oracle for one member directory against the in-memory result `mo` (from real_group.member_obs)"""
+def check_member_dir(res, mdir, mo, collects, what="", dialect=(",", '"')):
+    """oracle for one member directory against the in-memory result `mo` (from real_group.member_obs); `dialect` is the run's
+    delimiter and quote character: data.csv is written by the line spooler in that dialect (it is what Result.lines and a
+    source-mode: preceding member read it with), unmatched.csv by the serializer in the csv module's default dialect"""
     def bad(msg, **kw):
         res["oracle"].append(dict({"what": what + msg, "member": mo["identity"]}, **kw))
 
@@ -107,9 +114,9 @@ def check_member_dir(res, mdir, mo, collects, what=""):
     if collects:
         lines = mo["lines"] if isinstance(mo["lines"], list) else None
         if lines:
-            if "data.csv" not in files or read_csv_bytes(files["data.csv"]) != lines:
+            if "data.csv" not in files or read_csv_bytes(files["data.csv"], dialect) != lines:
                 bad("data.csv does not parse back to the collected lines", memory=lines,
-                    disk=read_csv_bytes(files["data.csv"]) if "data.csv" in files else None)
+                    disk=read_csv_bytes(files["data.csv"], dialect) if "data.csv" in files else None)
         elif "data.csv" in files and files["data.csv"]:
             bad("data.csv present although no line was collected")
     if mo["unmatched"]:
@@ -120,12 +127,13 @@ def check_member_dir(res, mdir, mo, collects, what=""):
 
     for fn in ("data.csv", "unmatched.csv"):
         if files.get(fn):
+            dl = dialect if fn == "data.csv" else (",", '"')
             try:
                 text = files[fn].decode("utf-8")
-                rows = read_csv_bytes(files[fn])
+                rows = read_csv_bytes(files[fn], dl)
             except Exception:  # noqa: BLE001
                 continue
-            cm = _driver.ask({"op": "csv", "crlf": True, "delim": ",", "quote": '"', "recs": rows})
+            cm = _driver.ask({"op": "csv", "crlf": True, "delim": dl[0], "quote": dl[1], "recs": rows})
             if cm["text"] != text or cm["read"] != rows:
                 res.setdefault("disagree", []).append({"what": f"csv model: {fn} as written / as read back", "real_text": text[:300],
                                                        "model_text": cm["text"][:300], "real_rows": rows[:5], "model_rows": (cm["read"] or [])[:5]})
@@ -151,8 +159,9 @@ def case_archive(case):
 
     realenv.reset_dirs()
     res = {"case": case, "disagree": [], "oracle": [], "nontrivial": False}
-    cp = RG.new_csvpaths(policy=["collect"], csvpath_policy=["collect", "print"])
-    RG.setup_group(cp, "grp", [member_text(m) for m in case["members"]], "food", case["recs"])
+    dialect = (case.get("delim", ","), case.get("quote", '"'))
+    cp = RG.new_csvpaths(policy=["collect"], csvpath_policy=["collect", "print"], delimiter=dialect[0], quotechar=dialect[1])
+    RG.setup_group(cp, "grp", [member_text(m) for m in case["members"]], "food", case["recs"], delimiter=dialect[0], quotechar=dialect[1])
     method = case["method"]
     caller, mobs, raised = RG.run_group(cp, "grp", "food", method)
     if raised:
@@ -191,7 +200,7 @@ def case_archive(case):
         return res
     model_members = []
     for m in mobs:
-        files = check_member_dir(res, os.path.join(run_dir, str(m["identity"])), m, collects)
+        files = check_member_dir(res, os.path.join(run_dir, str(m["identity"])), m, collects, dialect=dialect)
         model_members.append({"identity": str(m["identity"]), "nerrors": len(m["errors"]), "printouts": [x for _k, v in m.get("printouts_all", [["default", m["printouts"]]]) for x in v],
                               "lines": (m["lines"] if collects and isinstance(m["lines"], list) else []),
                               "unmatched": m["unmatched"] or [], "valid": m["valid"], "completed": m["completed"],
